@@ -1,0 +1,27 @@
+//go:build verif && amd64
+
+// Copyright (C) 2026  mieru authors
+//
+// This program is free software: you can redistribute it and/or modify
+// it under the terms of the GNU General Public License as published by
+// the Free Software Foundation, either version 3 of the License, or
+// (at your option) any later version.
+//
+// This program is distributed in the hope that it will be useful,
+// but WITHOUT ANY WARRANTY; without even the implied warranty of
+// MERCHANTABILITY or FITNESS FOR A PARTICULAR PURPOSE.  See the
+// GNU General Public License for more details.
+//
+// You should have received a copy of the GNU General Public License
+// along with this program.  If not, see <https://www.gnu.org/licenses/>.
+
+package mathext
+
+import "golang.org/x/sys/cpu"
+
+// VerifHasBMI2 reports whether the hardware routines can be called.
+func VerifHasBMI2() bool { return cpu.X86.HasBMI2 }
+
+func VerifPDEPBMI2(x, mask uint64) uint64 { return pdepBMI2(x, mask) }
+
+func VerifPEXTBMI2(x, mask uint64) uint64 { return pextBMI2(x, mask) }
